@@ -11,9 +11,11 @@
    MATCHING cup (and otherwise the first one); only pairs satisfying a snake
    equation are ever handed to unsnake (full, any obstructions); each unsnake
    removes exactly two boxes and the outer loop terminates.
-   Partial: totality (no InterchangerError / IndexError / AxiomError from unsnake)
-   for unobstructed snakes; the full statements are `snake_removal_total_stmt` and
-   `normal_form_total_stmt`.
+   Totality (end of this file, Snake/SnakeTotal.v): PROVED for arbitrary
+   obstructions -- `snake_removal_total_stmt` (no InterchangerError / IndexError /
+   AxiomError from unsnake on what find_snake selected) and `normal_form_total_stmt`
+   (normal_form only fails with NotImplementedError or the model's fuel); the first
+   partial result for unobstructed snakes is kept.
    Semantic soundness (second half of this file, Snake/SnakeWire.v + SnakeSem.v):
    PROVED for all inputs and any obstructions, over the typed strict monoidal
    model record of C05 / C06 (Sem/Monoidal.v) extended with the two snake
@@ -122,14 +124,15 @@ Theorem twisted_snake_left_in_place :
 Proof. exact twisted_left_in_place. Qed.
 Print Assumptions twisted_snake_left_in_place.
 
-(* FULL statements, kept visible, NOT asserted: on a well-typed rigid diagram every
-   call of unsnake on what find_snake selected runs to completion (no
-   InterchangerError / IndexError / AxiomError, whatever the obstructions); hence
-   the only error of normal_form is NotImplementedError (or the model's fuel) *)
+(* FULL statements: on a well-typed rigid diagram every call of unsnake on what
+   find_snake selected runs to completion (no InterchangerError / IndexError /
+   AxiomError, whatever the obstructions); hence the only error of normal_form is
+   NotImplementedError (or the model's fuel).  Both are PROVED at the end of this
+   file (`snake_removal_total`, `normal_form_total`). *)
 Definition snake_removal_total_stmt : Prop := SnakeLemmas.snake_removal_total_stmt.
 Definition normal_form_total_stmt : Prop := SnakeLemmas.normal_form_total_stmt.
 
-(* PARTIAL: the first of them for snakes without obstructions *)
+(* the first result, for snakes without obstructions (now a special case) *)
 Theorem snake_removal_total_partial : forall d cup cap ls, wf d -> rigid_ok d ->
   find_snake d = Some (cup, cap, ([], []), ls) -> unsnake_completes d cup cap [] [] ls.
 Proof. exact SnakeLemmas.snake_removal_total_partial. Qed.
@@ -166,10 +169,9 @@ Theorem unsnake_pair_adjacent : forall d cup cap lo ro ls s2, wf d -> rigid_ok d
 Proof. exact SnakeWire.unsnake_pair_adjacent. Qed.
 Print Assumptions unsnake_pair_adjacent.
 
-(* consequence for totality, any obstructions: once the two loops have completed,
-   the deletion is never refused (no AxiomError from `layers[:cap] >> layers[cup+1:]`);
-   what remains open in `snake_removal_total_stmt` is only that every interchange
-   requested by the loops is legal *)
+(* any obstructions: once the two loops have completed, the deletion is never
+   refused (no AxiomError from `layers[:cap] >> layers[cup+1:]`); that the loops do
+   complete is `unsnake_loops_complete` below *)
 Theorem unsnake_deletion_accepted : forall d cup cap lo ro ls s2, wf d -> rigid_ok d ->
   find_snake d = Some (cup, cap, (lo, ro), ls) ->
   unsnake_loops d cup cap lo ro ls = (s2, None) ->
@@ -275,3 +277,34 @@ Theorem rigid_laws_counting :
   SnakeLemmas.interp ucount_model obstructed_d = 4%nat /\ SnakeLemmas.interp ucount_model plain_d = 0%nat.
 Proof. split; [exact ucount_laws|exact ucount_values]. Qed.
 Print Assumptions rigid_laws_counting.
+
+
+(* ================================================================ totality, PROVED *)
+Require Import DV.Snake.SnakeTotal.
+
+(* the planar argument: the followed wire separates the left obstructions from the
+   right ones, from the cap and from the cup, so every interchange requested by the
+   two loops of unsnake is legal and the loops complete, whatever the obstructions *)
+Theorem unsnake_loops_complete : forall d cup cap lo ro ls, wf d -> rigid_ok d ->
+  find_snake d = Some (cup, cap, (lo, ro), ls) ->
+  exists s2, unsnake_loops d cup cap lo ro ls = (s2, None).
+Proof. exact SnakeTotal.unsnake_loops_complete. Qed.
+Print Assumptions unsnake_loops_complete.
+
+(* C07, totality, FULL: every call of unsnake on what find_snake selected runs to
+   completion -- no InterchangerError, IndexError or AxiomError *)
+Theorem snake_removal_total : snake_removal_total_stmt.
+Proof. exact SnakeTotal.snake_removal_total. Qed.
+Print Assumptions snake_removal_total.
+
+(* hence rigid.Diagram.normal_form only ever fails with NotImplementedError (its
+   cache found a repeat: a disconnected diagram) or the model's fuel *)
+Theorem normal_form_total : normal_form_total_stmt.
+Proof. exact SnakeTotal.normal_form_total. Qed.
+Print Assumptions normal_form_total.
+
+(* ... and no prefix of the trace of rigid.Diagram.normalize ends with an exception *)
+Theorem rigid_trace_never_raises : forall limit d left tr st e, wf d -> rigid_ok d ->
+  rigid_trace limit d left = (tr, st) -> st <> Raised e.
+Proof. exact SnakeTotal.rigid_trace_never_raises. Qed.
+Print Assumptions rigid_trace_never_raises.
